@@ -571,7 +571,7 @@ impl Check for C15 {
         vec!["interleavings are sampled: the harness does not own nomt's scheduler; a defect needing one precise three-way timing can be missed".into()]
     }
     fn cases(tier: Tier) -> u32 {
-        tier.pick(480, 6000)
+        tier.pick(960, 8000)
     }
     fn strategy(tier: Tier) -> BoxedStrategy<C15Case> {
         (
